@@ -1001,3 +1001,173 @@ def lit_ops(ops):
 
 Op("history", lambda r: gen_history(r), lambda ops_: _exec(ops_), lambda ops_: f"show_trace {lit_ops(ops_)}",
    lambda ops_: len(ops_) >= 4)
+
+
+# ---------------------------------------------------------------------------------------------- MIDI
+import mido, tempfile
+from scoda.midi.midi_file import MidiFile
+
+TMP = tempfile.mkdtemp(prefix="scoda-verif-")
+MIDO_KEYS = ["C", "G", "D", "A", "E", "B", "F#", "C#", "F", "Bb", "Eb", "Ab", "Db", "Gb", "Cb",
+             "Am", "Em", "Bm", "F#m", "C#m", "G#m", "D#m", "Dm", "Gm", "Cm", "Fm", "Bbm", "Ebm"]
+
+
+def ev_of_mido(m):
+    t = m.type
+    ch = getattr(m, "channel", -1)
+    if t == "note_on":
+        return ("on", ch, m.note, m.velocity, "", m.time)
+    if t == "note_off":
+        return ("off", ch, m.note, m.velocity, "", m.time)
+    if t == "time_signature":
+        return ("ts", -1, m.numerator, m.denominator, "", m.time)
+    if t == "key_signature":
+        return ("ks", -1, 0, 0, m.key, m.time)
+    if t == "control_change":
+        return ("cc", ch, m.control, m.value, "", m.time)
+    if t == "program_change":
+        return ("pc", ch, m.program, 0, "", m.time)
+    return ("x", ch, 0, 0, "", m.time)
+
+
+def mido_of_ev(e):
+    k, ch, a, b, key, dt = e
+    if k == "on":
+        return mido.Message("note_on", channel=ch, note=a, velocity=b, time=dt)
+    if k == "off":
+        return mido.Message("note_off", channel=ch, note=a, velocity=b, time=dt)
+    if k == "ts":
+        return mido.MetaMessage("time_signature", numerator=a, denominator=b, time=dt)
+    if k == "ks":
+        return mido.MetaMessage("key_signature", key=key, time=dt)
+    if k == "cc":
+        return mido.Message("control_change", channel=ch, control=a, value=b, time=dt)
+    if k == "pc":
+        return mido.Message("program_change", channel=ch, program=a, time=dt)
+    return mido.MetaMessage("marker", text="m", time=dt)
+
+
+def show_ev(e):
+    return ":".join(str(x) for x in e)
+
+
+def lit_ev(e):
+    k, ch, a, b, key, dt = e
+    K = {"on": "MOn", "off": "MOff", "ts": "MTs", "ks": "MKs", "cc": "MCc", "pc": "MPc", "x": "MOther"}[k]
+    return f"ev {K} {z(ch)} {z(a)} {z(b)} {lit_str(key)} {z(dt)}"
+
+
+def lit_evs(l):
+    return "[" + "; ".join(lit_ev(e) for e in l) + "]"
+
+
+def _impl_midi_events(ms):
+    s = mk_rel(ms)
+    tr = s.to_midi_track().to_mido_track()
+    return ";".join(show_ev(ev_of_mido(m)) for m in tr)
+
+
+Op("midi_events", lambda r: G.gen_rel_wf(r) if r.random() < 0.7 else G.gen_rel_malformed(r), _impl_midi_events,
+   lambda ms: f"show_mevs (to_events {lit_msgs(ms)})", lambda ms: len(ms) > 2)
+
+
+def gen_midi_file(r, dyadic=True):
+    tpb = r.choice([24, 48, 96, 12, 6, 192, 384, 3, 16, 8, 24, 48] if dyadic else [480, 960, 120, 100, 7, 1000, 36, 72, 5])
+    ntr = r.choice([1, 2, 2, 3, 4])
+    tracks = []
+    unit = max(1, tpb // r.choice([1, 2, 4, 8, 3, 6, 24, 48]))
+    for _ in range(ntr):
+        evs, open_ = [], []
+        for _ in range(r.randint(0, 10)):
+            dt = r.choice([0, 0, unit, unit, 2 * unit, unit // 2, r.randint(0, 3 * tpb), 1])
+            x = r.random()
+            ch = r.choice([0, 0, 1, 9])
+            if x < 0.4:
+                n = r.choice([60, 61, 62])
+                evs.append(("on", ch, n, r.choice([1, 64, 127]), "", dt)); open_.append((ch, n))
+            elif x < 0.7 and open_:
+                ch, n = open_.pop(r.randrange(len(open_)))
+                evs.append(("on", ch, n, 0, "", dt) if r.random() < 0.4 else ("off", ch, n, r.choice([0, 64]), "", dt))
+            elif x < 0.8:
+                a, b = r.choice(G.SIGS)
+                evs.append(("ts", -1, a, b, "", dt))
+            elif x < 0.88:
+                evs.append(("ks", -1, 0, 0, r.choice(MIDO_KEYS), dt))
+            elif x < 0.92:
+                evs.append(("cc", ch, 64, r.choice([0, 127]), "", dt))
+            elif x < 0.96:
+                evs.append(("pc", ch, r.randint(0, 5), 0, "", dt))
+            else:
+                evs.append(("x", -1, 0, 0, "", dt))
+        for ch, n in open_:
+            if r.random() < 0.8:
+                evs.append(("off", ch, n, 0, "", r.choice([unit, 1, 0])))
+        tracks.append(evs)
+    # groupings
+    idx = list(range(ntr))
+    mode = r.random()
+    if mode < 0.4:
+        groups = [[i] for i in idx]
+    elif mode < 0.7:
+        r.shuffle(idx)
+        k = r.randint(1, ntr)
+        groups = [idx[j::k] for j in range(k)]
+        groups = [g for g in groups if g]
+        if r.random() < 0.5 and len(groups) > 1:
+            groups = groups[:-1]          # some track in no group
+    else:
+        groups = [[r.randrange(ntr) for _ in range(r.choice([1, 2]))] for _ in range(r.choice([1, 2]))]
+        if r.random() < 0.3:
+            groups.append([ntr + 1])    # a group naming a track that does not exist
+    metas = r.choice([list(range(ntr)), [0], [r.randrange(ntr)], []])
+    mi = r.choice([0, 0, 0, len(groups) - 1, len(groups), -1])
+    return tpb, tracks, groups, metas, mi
+
+
+def write_midi(tpb, tracks, path):
+    f = mido.MidiFile(ticks_per_beat=tpb)
+    for evs in tracks:
+        tr = mido.MidiTrack()
+        for e in evs:
+            tr.append(mido_of_ev(e))
+        f.tracks.append(tr)
+    f.save(path)
+
+
+def _impl_midi_load(inp):
+    tpb, tracks, groups, metas, mi = inp
+    path = os.path.join(TMP, f"l{os.getpid()}.mid")
+    write_midi(tpb, tracks, path)
+    seqs = Sequence.sequences_load(path, track_indices=[list(g) for g in groups], meta_track_indices=list(metas),
+                                   target_meta_track_index=mi)
+    return "#".join(show_seq(s) for s in seqs)
+
+
+Op("midi_load", lambda r: gen_midi_file(r), _impl_midi_load,
+   lambda inp: f"show_seqs (convert_exec {inp[0]} [" + "; ".join(lit_evs(t) for t in inp[1]) + f"] {'[' + '; '.join(lit_zs(g) for g in inp[2]) + ']'} {lit_zs(inp[3])} {z(inp[4])})",
+   lambda inp: sum(len(t) for t in inp[1]) > 3)
+
+
+def _gen_midi_rt(r):
+    n = r.choice([1, 1, 2, 3])
+    out = []
+    for i in range(n):
+        notes = G.gen_notes(r, n=r.randint(0, 5), chans=[r.choice([0, 1])], pitches=[60, 61, 62, 64], hi=100)
+        ms = G.notes_to_abs(r, notes, sigs=True, extra=False)
+        rel = G.abs_to_rel(ms)
+        if r.random() < 0.3:
+            rel.append(WT(0, r.choice([6, 24])))
+        out.append(rel)
+    return out
+
+
+def _impl_midi_rt(rels):
+    ss = [mk_rel(ms) for ms in rels]
+    path = os.path.join(TMP, f"r{os.getpid()}.mid")
+    Sequence.sequences_save(ss, path)
+    back = Sequence.sequences_load(path)
+    return "#".join(show_seq(s) for s in back)
+
+
+Op("midi_roundtrip", _gen_midi_rt, _impl_midi_rt, lambda rels: f"show_seqs (save_load {lit_msgss(rels)})",
+   lambda rels: sum(len(t) for t in rels) > 3)
